@@ -219,13 +219,17 @@ def build_class(shape, twin=False):
         if level['redecl'] and chain:
             decl = decl + chain[-1][1][:1]  # re-declare an inherited member
         if level.get('manual'):
-            def save_instance_state(self, out_state, save_context, _cls=cls, _decl=tuple(decl)):
+            def save_instance_state(self, out_state, save_context, _cls=cls, _decl=tuple(decl), _lv=lv):
                 super(_cls, self).save_instance_state(out_state, save_context)
                 self.save_members(_decl, out_state, save_context)
+                # (an entry of the class's own in the user section of the meta data: the public set_custom_meta / get_custom_meta)
+                Savable.set_custom_meta(out_state, 'schema-of-level-%d' % _lv, len(_decl))
 
-            def load_instance_state(self, saved_state, load_context, _cls=cls, _decl=tuple(decl)):
+            def load_instance_state(self, saved_state, load_context, _cls=cls, _decl=tuple(decl), _lv=lv):
                 super(_cls, self).load_instance_state(saved_state, load_context)
                 self.load_members(_decl, saved_state, load_context)
+                if Savable.get_custom_meta(saved_state, 'schema-of-level-%d' % _lv) != len(_decl):
+                    raise RuntimeError('the meta entry of the class came back changed')
 
             cls.save_instance_state = save_instance_state
             cls.load_instance_state = load_instance_state
